@@ -14,6 +14,7 @@ import z3
 
 from . import sym, interp as interp_mod, explore, heap, concretize, summaries
 from .sym import Unsupported, Infeasible, PyExc, PObj, PList, PDict, PSlice
+from .loopcut import PathEnd
 
 VERIF = os.path.dirname(os.path.dirname(os.path.abspath(__file__)))
 SRC = os.environ.get('PYVC_SRC', '/repo/src')
@@ -523,7 +524,10 @@ def run_item(gid, item, cfg):
 
         def task(c):
             c.callspec = None
-            run.body(c)
+            try:
+                run.body(c)
+            except PathEnd:
+                pass  # the path ended inside a loop cut: its obligations are collected below
             spec = c.callspec
             refuted = [o for o in c.obligations if o.status == 'refuted']
             names = run.names
